@@ -21,7 +21,7 @@ LEVEL_NOTE = "Relies on C11 for time_at (boundary floats come from the engine it
 RULE = c11.RULE + " Each case asks ~300-1500 (time, tag) questions per engine."
 EXHAUSTIVE_PART = c11.EXHAUSTIVE_PART
 ASSUMPTIONS = ["time_at is correct (C11)", "times stay below 1e5 s so float resolution is far below a tick"]
-MONITORS = ["roundtrip", "pause_interior", "window", "warp_stretch", "monotone", "independence", "order_independence", "absolute_times", "engine_after_timing_data_edit"]
+MONITORS = ["roundtrip", "pause_interior", "window", "warp_stretch", "monotone", "independence", "order_independence", "absolute_times", "engine_after_timing_data_edit", "engine_copies"]
 REQUIRED = ["stop_inside_warp", "stop_at_warp_start", "delay_inside_warp", "pause_at_warp_end", "warp_at_beat_0",
             "bpm_change_inside_warp", "nested_warps", "touching_warps", "corpus",
             "different_kinds_on_adjacent_ticks", "warp_one_tick_after_a_stop", "pause_boundary_at_time_zero"]
@@ -275,6 +275,18 @@ def check(ctx, case):
         td.offset = td.offset + Decimal("0.375")
         td.bpms[0] = BeatValue(td.bpms[0].beat, td.bpms[0].value * 2)
         TimingEngine(td)
+        # copies of the engine taken after the edit (copy, deepcopy, pickle) answer like the engine they were copied from
+        import copy as _copy
+        import pickle as _pickle
+
+        for label, dup in (("copy", _copy.copy(old)), ("deepcopy", _copy.deepcopy(old)), ("pickle", _pickle.loads(_pickle.dumps(old)))):
+            ctx.mon("engine_copies")
+            for x in (Fraction(-1), Fraction(1), Fraction(5, 2), beats[-1]):
+                bx = Beat(x.numerator, x.denominator)
+                if float(dup.time_at(bx)) != float(old.time_at(bx)) or dup.beat_at(1.5) != old.beat_at(1.5):
+                    ctx.violation(f"copy:{label}-of-an-engine-answers-differently-from-the-engine",
+                                  {"beat": str(x), "engine": float(old.time_at(bx)), "copy": float(dup.time_at(bx)), "timing": timing})
+                    break
         ctx.mon("engine_after_timing_data_edit")
         for x in [b for b in beats if not tl.in_warp(b)][:: max(1, len(beats) // 25)] + [Fraction(-1), Fraction(-7, 48), Fraction(-96, 48)]:
             bx = Beat(x.numerator, x.denominator)
